@@ -145,3 +145,82 @@ func ZZ_C14_Local() {
 		zzverif.Assert(false, "readline-continues-after-menu-interrupt"+sfx)
 	}
 }
+
+// ZZ_C14_Again: completion is used more than once on the same line, with an edit in between,
+// and the first candidate offered is the typed word itself. Keys: TAB TAB (two candidates
+// inserted in turn), a typed letter (accepts the inserted candidate and edits the line), TAB
+// (first candidate = the word as typed), a typed letter. The completer derives its candidates
+// from the line and cursor it is given: the word before the cursor, then that word + "x",
+// then + "yz". After every key the buffer must be the buffer of the previous wait with only
+// the word before the cursor rewritten (TAB) or with the letter inserted at the cursor
+// (letter; the accepted candidate stays).
+// params: n
+func ZZ_C14_Again() {
+	n := zzverif.ParamInt("n")
+	b := zzverif.Runes("b", n)
+	for _, r := range b {
+		zzverif.Assume(r == 'a' || r == 'b' || r == ' ')
+	}
+	p := zzverif.IntRange("p", 0, n)
+	candsFor := func(line []rune, cursor int) []string {
+		w := zzWordStart(line, cursor)
+		word := string(line[w:cursor])
+		if word == "" {
+			return []string{"x", "yz"}
+		}
+		return []string{word, word + "x", word + "yz"}
+	}
+	script := &zzverif.Script{}
+	rl := zzSession(script)
+	rl.Completer = func(line []rune, cursor int) Completions {
+		return CompleteValues(candsFor(line, cursor)...)
+	}
+	keys := []string{"\t", "\t", "a", "\t", "b"}
+	var pre []rune // buffer and cursor at the wait before the key that has just run
+	prePos := 0
+	var base []rune // buffer and cursor when the current run of TABs started
+	basePos := 0
+	wait := 0
+	script.OnWait = func() {
+		got := append([]rune(nil), (*rl.line)...)
+		pos := rl.cursor.Pos()
+		if wait == 0 {
+			rl.line.Set(zzCopy(b)...)
+			rl.cursor.Set(p)
+			for _, k := range keys {
+				script.Chunks = append(script.Chunks, []byte(k))
+			}
+			pre, prePos = zzCopy(b), p
+			base, basePos = zzCopy(b), p
+			wait++
+			return
+		}
+		key := keys[wait-1]
+		if key == "\t" {
+			// the word before the cursor of the line the TABs started on becomes a candidate
+			w := zzWordStart(base, basePos)
+			ok := zzSameRunes(got, base) && pos == basePos
+			for _, v := range candsFor(base, basePos) {
+				want := append(append(append([]rune{}, base[:w]...), []rune(v)...), base[basePos:]...)
+				if zzSameRunes(got, want) && pos == w+len([]rune(v)) {
+					ok = true
+				}
+			}
+			zzverif.Note("tab"+string(rune('0'+wait)), string(got))
+			zzverif.Assert(ok, "completion-only-rewrites-the-word/repeated")
+		} else {
+			// a typed letter accepts what is inserted and goes in at the cursor
+			want := append(append(append([]rune{}, pre[:prePos]...), []rune(key)...), pre[prePos:]...)
+			zzverif.Note("key"+string(rune('0'+wait)), string(got))
+			zzverif.Assert(zzSameRunes(got, want) && pos == prePos+1, "typing-accepts-the-candidate-and-inserts/repeated")
+			base, basePos = got, pos
+		}
+		pre, prePos = got, pos
+		if wait == len(keys) {
+			zzverif.Reach("all-keys")
+			zzverif.Block()
+		}
+		wait++
+	}
+	rl.Readline()
+}
